@@ -982,6 +982,12 @@ func ProcessGanttChartRequest(ctx *fasthttp.RequestCtx, myid int64) {
 	searchRequestBody.From = 0
 	searchRequestBody.Size = 1000
 
+	// The trace view asks for trace_id=<id>: quote the id, one that has no letter in it would
+	// otherwise be compared as a number and match no span.
+	if isOnlyTraceID, traceId := ExtractTraceID(searchRequestBody.SearchText); isOnlyTraceID {
+		searchRequestBody.SearchText = fmt.Sprintf(`trace_id="%s"`, traceId)
+	}
+
 	// Used to find out which attributes belong to tags
 	fieldsNotInTag := []string{"trace_id", "span_id", "parent_span_id", "service", "trace_state", "name", "kind", "start_time", "end_time",
 		"duration", "dropped_attributes_count", "dropped_events_count", "dropped_links_count", "status", "events", "links", "_index", "timestamp"}
